@@ -248,6 +248,10 @@ func (this *BtcTxParam) Deserialization(source *common.ZeroCopySource) error {
 	if eof {
 		return fmt.Errorf("BtcFeeRateParam deserialize length of signature array error")
 	}
+	// every signature takes at least one byte (its length prefix)
+	if l > source.Len() {
+		return fmt.Errorf("BtcFeeRateParam deserialize length of signature array %d exceeds remaining %d bytes", l, source.Len())
+	}
 	sigs := make([][]byte, l)
 	for i := uint64(0); i < l; i++ {
 		sigs[i], eof = source.NextVarBytes()
@@ -317,6 +321,10 @@ func (this *RegisterAssetParam) Deserialization(source *common.ZeroCopySource) e
 	l, eof := source.NextVarUint()
 	if eof {
 		return fmt.Errorf("RegisterAssetParam deserialize length of asset map array error")
+	}
+	// every entry takes at least two bytes (chain id + address length prefix)
+	if l > source.Len()/2 {
+		return fmt.Errorf("RegisterAssetParam deserialize length of asset map array %d exceeds remaining %d bytes", l, source.Len())
 	}
 	assetMap := make(map[uint64][]byte, l)
 	for i := uint64(0); i < l; i++ {
@@ -394,6 +402,10 @@ func (this *AssetBind) Deserialization(source *common.ZeroCopySource) error {
 	l, eof := source.NextVarUint()
 	if eof {
 		return fmt.Errorf("RegisterAssetParam deserialize length of asset map array error")
+	}
+	// every entry takes at least two bytes (chain id + address length prefix)
+	if l > source.Len()/2 {
+		return fmt.Errorf("RegisterAssetParam deserialize length of asset map array %d exceeds remaining %d bytes", l, source.Len())
 	}
 	assetMap := make(map[uint64][]byte, l)
 	for i := uint64(0); i < l; i++ {
